@@ -28,3 +28,13 @@ Example C18_example :
   preprocess_ok 6 (Some 0) [(6, Some 0); (6, Some 1)] = false /\
   preprocess_ok 6 (Some 0) [(6, Some 1); (6, None)] = false.
 Proof. repeat split; reflexivity. Qed.
+
+(* Tie B (pins): the functions this property's models transcribe read, statement by statement, as they did when the models
+   were written against them; Gen/SourcesGen.v is regenerated from /repo on every run (translator/pins.py). *)
+From GL Require Import Gen.SourcesGen Model.Sources Proofs.PinC18.
+Theorem C18_modelled_functions_are_the_source's :
+  gen_src_validate_lengths_and_indexes = src_validate_lengths_and_indexes /\
+  gen_src_preprocess_arguments = src_preprocess_arguments /\
+  gen_src_check_data_inputs_aligned = src_check_data_inputs_aligned.
+Proof. exact (conj pin_validate_lengths_and_indexes (conj pin_preprocess_arguments pin_check_data_inputs_aligned)). Qed.
+Print Assumptions C18_modelled_functions_are_the_source's.
